@@ -60,21 +60,34 @@ namespace c13
     auto at = [&](int r, int slot, Index j, int c) { return outs[size_t(r)].vec[slot][size_t(j) * size_t(bs) + size_t(c)]; };
     auto name = [&](int r, Index j, int c) { std::ostringstream o; o << "rank " << r << " local dof " << j << " (base dof " << w.ranks[size_t(r)]->p2b[size_t(j)] << ", component " << c << ", shared by " << B.count[size_t(w.ranks[size_t(r)]->p2b[size_t(j)])] << " patches)"; return o.str(); };
     // compares a result vector entry-wise; exact = bit equality required, otherwise tol * magnitude
-    auto cmp_vec = [&](int slot, const char* label, bool exact, auto want /* (rank, base dof, comp) -> long double */, auto mag)
+    auto cmp_vec_n = [&](int slot, const char* label, bool exact, int nc, auto want /* (rank, base dof, comp) -> long double */, auto mag)
     {
       for(int r = 0; r < P; ++r)
       {
         const auto& R = *w.ranks[size_t(r)];
-        if(outs[size_t(r)].vec[slot].size() != size_t(R.ndofs) * size_t(bs)) { V.fail(std::string(label) + ": rank " + std::to_string(r) + " delivered no result vector"); continue; }
-        for(Index j = 0; j < R.ndofs; ++j) for(int c = 0; c < bs; ++c)
+        if(outs[size_t(r)].vec[slot].size() != size_t(R.ndofs) * size_t(nc)) { V.fail(std::string(label) + ": rank " + std::to_string(r) + " delivered no result vector"); continue; }
+        for(Index j = 0; j < R.ndofs; ++j) for(int c = 0; c < nc; ++c)
         {
           const long double wv = want(r, R.p2b[size_t(j)], c);
-          const double got = at(r, slot, j, c);
+          const double got = outs[size_t(r)].vec[slot][size_t(j) * size_t(nc) + size_t(c)];
           bool ok;
           if(exact) ok = same_bits(got, double(wv));
           else ok = std::isfinite(got) && fabsl((long double)got - wv) <= 32.0L * eps * (fabsl(wv) + mag(r, R.p2b[size_t(j)], c)) + 1e-300L;
           if(!ok) { std::ostringstream o; o.precision(17); o << label << ": " << name(r, j, c) << " = " << got << ", expected " << double(wv) << (exact ? " (exactly)" : ""); V.fail(o.str()); return; }
         }
+      }
+    };
+    auto cmp_vec = [&](int slot, const char* label, bool exact, auto want, auto mag) { cmp_vec_n(slot, label, exact, bs, want, mag); };
+    /// a vector over the BASE dofs delivered by one rank
+    auto cmp_base = [&](int r, int slot, const char* label, bool exact, auto want /* (base dof, comp) */, auto mag)
+    {
+      const auto& vv = outs[size_t(r)].vec[slot];
+      if(vv.size() != size_t(B.N) * size_t(bs)) { V.fail(std::string(label) + ": rank " + std::to_string(r) + " delivered no base vector"); return; }
+      for(Index b = 0; b < B.N; ++b) for(int c = 0; c < bs; ++c)
+      {
+        const long double wv = want(b, c); const double got = vv[size_t(b) * size_t(bs) + size_t(c)];
+        const bool ok = exact ? same_bits(got, double(wv)) : (std::isfinite(got) && fabsl((long double)got - wv) <= 32.0L * eps * (fabsl(wv) + mag(b, c)) + 1e-300L);
+        if(!ok) { std::ostringstream o; o.precision(17); o << label << ": base dof " << b << " component " << c << " (shared by " << B.count[size_t(b)] << " patches) = " << got << ", expected " << double(wv) << (exact ? " (exactly)" : ""); V.fail(o.str()); return; }
       }
     };
     auto cmp_scal = [&](size_t idx, const char* label, bool exact, long double wv, long double mag)
@@ -95,6 +108,21 @@ namespace c13
     auto Au = [&](Index b, int c) { long double s = 0; for(Index j = 0; j < B.N; ++j) for(int q = 0; q < bs; ++q) s += (long double)B.a(b, j) * (bs == 1 ? 1.0 : blockB(c, q)) * val_u(j, q); return s; };
     auto absAu = [&](Index b, int c) { long double s = 0; for(Index j = 0; j < B.N; ++j) for(int q = 0; q < bs; ++q) s += fabsl((long double)B.a(b, j) * (bs == 1 ? 1.0 : blockB(c, q)) * val_u(j, q)); return s; };
     const bool p2 = B.all_pow2;
+    auto check_to1 = [&](const char* label)
+    {
+      for(int r = 0; r < P; ++r)
+      {
+        const auto& R = *w.ranks[size_t(r)];
+        const Index* rp = R.A0.row_ptr(); const Index* ci = R.A0.col_ind();
+        if(outs[size_t(r)].mat.size() != size_t(R.A0.used_elements()) * size_t(bs * bs)) { V.fail(std::string(label) + ": rank " + std::to_string(r) + " delivered no matrix"); continue; }
+        for(Index i = 0; i < R.ndofs && V.ok(); ++i) for(Index k = rp[i]; k < rp[i + 1]; ++k) for(int p = 0; p < bs; ++p) for(int q = 0; q < bs; ++q)
+        {
+          const double wv = B.a(R.p2b[size_t(i)], R.p2b[size_t(ci[k])]) * (bs == 1 ? 1.0 : blockB(p, q));
+          const double got = outs[size_t(r)].mat[size_t(k) * size_t(bs * bs) + size_t(p * bs + q)];
+          if(!same_bits(got, wv)) { std::ostringstream o; o.precision(17); o << std::string(label) + ": rank " << r << " entry (" << i << "," << ci[k] << ") = base (" << R.p2b[size_t(i)] << "," << R.p2b[size_t(ci[k])] << ") block (" << p << "," << q << ") is " << got << ", expected " << wv; V.fail(o.str()); break; }
+        }
+      }
+    };
 
     for(int r = 0; r < P; ++r) if(!outs[size_t(r)].note.empty()) V.fail("rank " + std::to_string(r) + ": " + outs[size_t(r)].note);
 
@@ -157,18 +185,7 @@ namespace c13
       cmp_vec(0, "lump_rows", true, [&](int, Index b, int c) { long double s = 0; for(Index j = 0; j < B.N; ++j) for(int q = 0; q < bs; ++q) s += (long double)B.a(b, j) * (bs == 1 ? 1.0 : blockB(c, q)); return s; }, zero);
       break;
     case op_to1:
-      for(int r = 0; r < P; ++r)
-      {
-        const auto& R = *w.ranks[size_t(r)];
-        const Index* rp = R.A0.row_ptr(); const Index* ci = R.A0.col_ind();
-        if(outs[size_t(r)].mat.size() != size_t(R.A0.used_elements()) * size_t(bs * bs)) { V.fail("convert_to_1: rank " + std::to_string(r) + " delivered no matrix"); continue; }
-        for(Index i = 0; i < R.ndofs && V.ok(); ++i) for(Index k = rp[i]; k < rp[i + 1]; ++k) for(int p = 0; p < bs; ++p) for(int q = 0; q < bs; ++q)
-        {
-          const double wv = B.a(R.p2b[size_t(i)], R.p2b[size_t(ci[k])]) * (bs == 1 ? 1.0 : blockB(p, q));
-          const double got = outs[size_t(r)].mat[size_t(k) * size_t(bs * bs) + size_t(p * bs + q)];
-          if(!same_bits(got, wv)) { std::ostringstream o; o.precision(17); o << "convert_to_1: rank " << r << " entry (" << i << "," << ci[k] << ") = base (" << R.p2b[size_t(i)] << "," << R.p2b[size_t(ci[k])] << ") block (" << p << "," << q << ") is " << got << ", expected " << wv; V.fail(o.str()); break; }
-        }
-      }
+      check_to1("convert_to_1");
       break;
     case op_rect_apply:
       if(bs == 2)
@@ -186,6 +203,85 @@ namespace c13
           const double got = outs[size_t(r)].mat[size_t(k) * 6u + size_t(p * 3 + q)];
           if(!same_bits(got, wv)) { std::ostringstream o; o.precision(17); o << "rect-block convert_to_1: rank " << r << " entry (" << i << "," << ci[k] << ") = base (" << R.p2b[size_t(i)] << "," << R.p2b[size_t(ci[k])] << ") block (" << p << "," << q << ") is " << got << ", expected " << wv; V.fail(o.str()); break; }
         }
+      }
+      break;
+    case op_multi:
+      {
+        auto sum_w2 = [&](Index b, int c) { long double s2 = 0; for(int q = 0; q < P; ++q) for(Index bj : w.ranks[size_t(q)]->p2b) if(bj == b) s2 += val_w2(q, b, c); return s2; };
+        cmp_vec(0, "tickets in flight: first sync_0", true, [&](int, Index b, int c) { return sum_w(b, c); }, zero);
+        cmp_vec(1, "tickets in flight: second sync_0", true, [&](int, Index b, int c) { return sum_w2(b, c); }, zero);
+        cmp_vec(2, "tickets in flight: dot operand x unchanged", true, [&](int, Index b, int c) { return (long double)val_u(b, c); }, zero);
+        cmp_vec(3, "tickets in flight: dot operand y unchanged", true, [&](int, Index b, int c) { return (long double)val_v(b, c); }, zero);
+        long double d = 0, ad = 0, nn = 0; double mx = 0;
+        for(Index i = 0; i < B.N; ++i) for(int c = 0; c < bs; ++c) { d += (long double)val_u(i, c) * val_v(i, c); ad += fabsl((long double)val_u(i, c) * val_v(i, c)); nn += (long double)val_u(i, c) * val_u(i, c); mx = std::max(mx, fabs(val_u(i, c))); }
+        cmp_scal(0, "tickets in flight: norm2_async", p2, (long double)std::sqrt(double(nn)), sqrtl(nn));
+        cmp_scal(1, "tickets in flight: max_abs_element_async", true, mx, 0);
+        cmp_scal(2, "tickets in flight: dot_async", p2, d, ad);
+      }
+      break;
+    case op_repeat:
+      {
+        cmp_vec(0, "sync_0 applied twice", true, [&](int, Index b, int c) { return (long double)B.count[size_t(b)] * sum_w(b, c); }, zero);
+        long double d = 0, ad = 0;
+        for(Index i = 0; i < B.N; ++i) for(int c = 0; c < bs; ++c) { d += (long double)val_u(i, c) * val_v(i, c); ad += fabsl((long double)val_u(i, c) * val_v(i, c)); }
+        cmp_scal(0, "dot (1st call)", p2, d, ad); cmp_scal(1, "dot (2nd call on the same gate)", p2, d, ad); cmp_scal(2, "dot (operands swapped)", p2, d, ad);
+        cmp_vec(1, "Matrix::apply into a vector holding an older result", true, [&](int, Index b, int c) { long double s2 = 0; for(Index j = 0; j < B.N; ++j) for(int q = 0; q < bs; ++q) s2 += (long double)B.a(b, j) * (bs == 1 ? 1.0 : blockB(c, q)) * val_v(j, q); return s2; }, zero);
+        cmp_vec(2, "sync_1 applied twice", p2, [&](int, Index b, int c) { return (long double)val_u(b, c); }, [&](int, Index b, int c) { return (long double)fabs(val_u(b, c)); });
+        cmp_scal(3, "get_num_global_dofs (1st call)", true, (long double)B.N, 0); cmp_scal(4, "get_num_global_dofs (2nd call)", true, (long double)B.N, 0);
+      }
+      break;
+    case op_derived:
+      {
+        cmp_vec(0, "gate converted to float/unsigned: sync_0", true, [&](int, Index b, int c) { return sum_w(b, c); }, zero);
+        cmp_vec(1, "gate converted to float/unsigned: frequencies", true, [&](int, Index b, int) { return (long double)float(1.0 / double(B.count[size_t(b)])); }, zero);
+        long double d = 0, ad = 0;
+        for(Index i = 0; i < B.N; ++i) for(int c = 0; c < bs; ++c) { d += (long double)val_u(i, c) * val_v(i, c); ad += fabsl((long double)val_u(i, c) * val_v(i, c)); }
+        for(int r = 0; r < P; ++r)
+        {
+          const double got = outs[size_t(r)].scal.empty() ? std::nan("") : outs[size_t(r)].scal[0];
+          if(!(p2 ? got == double(d) : fabsl((long double)got - d) <= 1e-5L * (ad + 1))) { std::ostringstream o; o.precision(9); o << "gate converted to float/unsigned: dot on rank " << r << " is " << got << ", expected " << double(d); V.fail(o.str()); break; }
+        }
+        cmp_vec_n(2, "gate converted to blocked<3> vectors: sync_0", true, 3, [&](int, Index b, int c) { return sum_w(b, c); }, zero);
+        cmp_vec(3, "move-constructed / move-assigned gate: sync_0", true, [&](int, Index b, int c) { return sum_w(b, c); }, zero);
+        cmp_vec(4, "cloned matrix applied to a cloned vector", true, [&](int, Index b, int c) { return Au(b, c); }, zero);
+        cmp_vec(5, "source gate after conversions: sync_0", true, [&](int, Index b, int c) { return sum_w(b, c); }, zero);
+      }
+      break;
+    case op_alpha:
+      {
+        const double alphas[3] = {0.0, 1.0, -1.0};
+        const char* lab[3] = {"Matrix::apply(r,x,y,alpha=0)", "Matrix::apply(r,x,y,alpha=1)", "Matrix::apply(r,x,y,alpha=-1)"};
+        for(int k = 0; k < 3; ++k)
+          cmp_vec(k, lab[k], p2, [&](int, Index b, int c) { return (long double)val_v(b, c) + (long double)alphas[k] * Au(b, c); }, [&](int, Index b, int c) { return fabsl((long double)val_v(b, c)) + absAu(b, c); });
+      }
+      break;
+    case op_extreme:
+      {
+        const long double big = ldexpl(1.0L, 500), tiny = ldexpl(1.0L, -1060);
+        auto sum_neg = [&](Index b, int c) { long double s2 = 0; for(int q = 0; q < P; ++q) for(Index bj : w.ranks[size_t(q)]->p2b) if(bj == b) s2 += -fabsl((long double)val_w(q, b, c)) - 0.25L; return s2; };
+        cmp_vec(0, "sync_0 of values around 2^500", true, [&](int, Index b, int c) { return sum_w(b, c) * big; }, zero);
+        cmp_vec(1, "sync_0 of denormal values", true, [&](int, Index b, int c) { return sum_w(b, c) * tiny; }, zero);
+        cmp_vec(2, "sync_0 of all-negative values", true, [&](int, Index b, int c) { return sum_neg(b, c); }, zero);
+        cmp_vec(3, "sync_0 of zeros", true, zero, zero);
+        long double d = 0, ad = 0, mx = 0;
+        for(Index i = 0; i < B.N; ++i) for(int c = 0; c < bs; ++c) { d += (long double)val_u(i, c) * val_v(i, c); ad += fabsl((long double)val_u(i, c) * val_v(i, c)); mx = std::max(mx, fabsl(sum_neg(i, c))); }
+        cmp_scal(0, "dot of 2^200 / 2^-200 scaled vectors", p2, d, ad);
+        cmp_scal(1, "max_abs_element of an all-negative vector", true, mx, 0);
+      }
+      break;
+    case op_empty:
+      cmp_vec(0, "empty mirrors pushed: sync_0", true, [&](int, Index b, int c) { return sum_w(b, c); }, zero);
+      cmp_vec(1, "empty mirrors pushed: Matrix::apply", true, [&](int, Index b, int c) { return Au(b, c); }, zero);
+      cmp_vec(2, "empty mirrors pushed: frequencies", true, [&](int, Index b, int) { return (long double)(1.0 / double(B.count[size_t(b)])); }, zero);
+      check_to1("empty mirrors pushed: convert_to_1");
+      break;
+    case op_splitter:
+      {
+        cmp_vec(0, "Splitter::split", true, [&](int, Index b, int c) { return (long double)val_u(b, c); }, zero);
+        cmp_base(0, 1, "Splitter::join", p2, [&](Index b, int c) { return (long double)val_v(b, c); }, [&](Index b, int c) { return (long double)fabs(val_v(b, c)); });
+        cmp_vec(4, "Splitter::join operand unchanged", true, [&](int, Index b, int c) { return (long double)val_v(b, c); }, zero);
+        cmp_base(P - 1, 2, "Muxer::join", true, [&](Index b, int c) { return sum_w(b, c); }, [&](Index, int) { return 0.0L; });
+        cmp_vec(3, "Muxer::split", true, [&](int, Index b, int c) { return (long double)val_v(b, c); }, zero);
       }
       break;
     case op_pcg:
@@ -230,7 +326,7 @@ namespace c13
     _exit(0);
   }
 
-  struct Bounds { int pcg_dev = 2; uint64_t max_exec = 20000; bool do_pcg = true; bool do_to1 = true; bool thread_check = false; uint64_t thread_exec = 2000; };
+  struct Bounds { int multi_dev = 2; bool alternate_modes = false; int pcg_dev = 2; uint64_t max_exec = 20000; bool do_pcg = true; bool do_to1 = true; bool thread_check = false; uint64_t thread_exec = 2000; };
 
   template<typename Mesh_, int space_id_, int BS_>
   void run_case_t(verif::Ctx& c, const Cfg& cfg, const Bounds& bd)
@@ -246,6 +342,7 @@ namespace c13
 
     auto execute = [&](int mode, int op, const std::vector<int>& prefix, std::vector<RankOut>& outs, Verdict& V)
     {
+      c.heartbeat();
       outs.assign(size_t(P), RankOut());
       minimpi::set_mode(mode == 0 ? minimpi::eager : minimpi::rendezvous);
       vsched::reset(prefix, false);
@@ -277,11 +374,14 @@ namespace c13
       if(op == op_pcg && !bd.do_pcg) continue;
       if(op == op_to1 && !bd.do_to1) continue;
       if((op == op_rect_apply || op == op_rect_to1) && BS_ != 2) continue;
+      if(op == op_splitter && P == 1) { bool ident = true; for(Index j = 0; j < w.ranks[0]->ndofs; ++j) ident = ident && (w.ranks[0]->p2b[size_t(j)] == j); if(!ident) continue; }
       if(op == op_pcg && !have_p1) { p1 = solve_base(w); Statistics::reset(); have_p1 = true; }
       const std::string pre = std::to_string(mode) + ":" + std::to_string(op) + ":";
       dead_ctx().c = &c; dead_ctx().key = std::string(op_name(op)) + " " + cls; dead_ctx().pre = pre;
       minimpi::Explorer ex;
-      ex.deviation_bound = (op == op_pcg) ? bd.pcg_dev : -1;
+      ex.deviation_bound = (op == op_pcg) ? bd.pcg_dev : op_is_multi(op) ? bd.multi_dev : -1;
+      // quick tier: the long multi-synchronisation operations alternate between the send modes from case to case
+      if(bd.alternate_modes && op_is_multi(op) && op != op_pcg && op != op_multi && (int((c.index() + op) % 2) != mode)) continue;
       ex.max_executions = bd.max_exec;
       const double t_end = c._deadline;
       ex.stop = [&c, t_end]() { return t_end > 0.0 && c.now() > t_end; };
@@ -315,7 +415,7 @@ namespace c13
         stop_case = true;   // one report per case
         break;
       }
-      const bool exact_op = (op == op_gate || op == op_sync0 || op == op_apply || op == op_diag || op == op_lump || op == op_to1 || op == op_rect_apply || op == op_rect_to1) || (w.B.all_pow2 && op != op_pcg);
+      const bool exact_op = (op == op_gate || op == op_sync0 || op == op_apply || op == op_diag || op == op_lump || op == op_to1 || op == op_rect_apply || op == op_rect_to1 || op == op_empty) || (w.B.all_pow2 && op != op_pcg);
       if(exact_op && digests.size() != 1)
         c.fail(std::string("order dependence: ") + op_name(op) + " " + cls, "exact data, but " + std::to_string(digests.size()) + " distinct result digests over " + std::to_string(ex.stats.executions) + " arrival orders", pre);
       c.outcome(std::string(op_name(op)) + (exact_op ? " exact" : " rounded") + " digests=" + (digests.size() == 1 ? "1" : digests.size() <= 4 ? "2-4" : ">4"));
@@ -424,7 +524,7 @@ namespace c13
     spec.property = "C13";
     spec.harness = C13_HARNESS;
     spec.rule = "case = (base mesh, joint refinements, ranks P, surjective cell->rank assignment, space in {Lagrange1, Lagrange2, CroRavRanTur, DiscontinuousP0}, "
-      "vector kind in {scalar, blocked<2>}, patch numbering natural / scrambled (reversed, rotated, FEAT random permutation: mirror index arrays not ascending)); per case both send modes x 13 operations (incl. BCSR<2,2> and rectangular BCSR<2,3> matrices for the blocked kind) of the real Global::Gate/Vector/Matrix/Filter/PCG on P rank threads over the MPI model; "
+      "vector kind in {scalar, blocked<2>}, patch numbering natural / scrambled (reversed, rotated, FEAT random permutation: mirror index arrays not ascending)); per case both send modes x 20 operations (single synchronisations; several tickets in flight; repeated use of one gate; converted / moved / cloned gates, vectors, matrices; alpha in {0,1,-1}; 2^500, denormal, all-negative, zero data; empty mirrors pushed; Splitter and Muxer) (incl. BCSR<2,2> and rectangular BCSR<2,3> matrices for the blocked kind) of the real Global::Gate/Vector/Matrix/Filter/PCG on P rank threads over the MPI model; "
       "per operation every MPI_Waitany answer sequence (full product of the arrival orders of all ranks; <= D deviations for the PCG run) is executed and compared with a "
       "base-level oracle. Non-trivial = P >= 2 and at least one base dof shared between patches, hashed by the case description.";
 #if C13_FAMILY == 0
@@ -469,6 +569,24 @@ namespace c13
       plans.push_back({vm::gen_block(3, 2, 2, 1), 0, 4, 1, T ? 1 : 0});
       if(T) plans.push_back({vm::gen_block(3, 2, 1, 1), 1, 2, 1, 0});
 #endif
+      // documented use of the asynchronous interface on a process without neighbours (one process, discontinuous spaces ...)
+      if(c.want())
+      {
+        c.desc([&]{ return std::string("Global::Vector::sync_0_async() + wait() and Matrix::apply_async() + wait() on a gate without neighbours, one process"); });
+        const int sig = c.run_forked([&]
+        {
+          typedef LAFEM::DenseVector<double, Index> V1;
+          Dist::Comm comm = Dist::Comm::world();
+          Global::Gate<V1, Mirror> gate(comm);
+          gate.compile(V1(3));
+          Global::Vector<V1, Mirror> x(&gate, V1(3, 1.0));
+          auto t = x.sync_0_async();
+          t.wait();
+          if(x.local()(1) != 1.0) _exit(5);
+        });
+        c.check(sig == 0, "sync_0_async().wait() on a gate without neighbours", [&]{ return "the documented 'ticket that has to be waited upon' cannot be waited for: outcome " + std::to_string(sig) + " (6 = abort in SynchVectorTicket::wait)"; });
+        c.outcome(sig == 0 ? "async ticket without neighbours ok" : "async ticket without neighbours aborts");
+      }
       for(const Plan& pl : plans)
       for(int P = 1; P <= pl.pmax; ++P)
       {
@@ -500,6 +618,8 @@ namespace c13
 #if C13_FAMILY == 2
             if(!T) bd.pcg_dev = 1;
 #endif
+            bd.multi_dev = T ? 2 : 1;
+            bd.alternate_modes = !T;
             bd.thread_check = (c.index() % 16) == 5;
             bd.thread_exec = T ? 20000 : 1500;
             const double t0 = c.now();
